@@ -326,8 +326,14 @@ def run(chk, repo, tier):
         for L in [x for x in walk_no_nested(f.node) if isinstance(x, ast.For)]:
             it = L.iter
             # the loop runs once over a fixed collection (a copy of the set it grows, or the seed set of another set)
-            over_copy = isinstance(it, ast.Call) and isinstance(it.func, ast.Attribute) and it.func.attr == 'copy' \
-                and isinstance(it.func.value, ast.Name)
+            copied = None        # the set a snapshot of which is iterated: s.copy(), tuple(s), list(s), set(s), sorted(s)
+            if isinstance(it, ast.Call) and isinstance(it.func, ast.Attribute) and it.func.attr == 'copy' \
+                    and isinstance(it.func.value, ast.Name):
+                copied = it.func.value.id
+            elif isinstance(it, ast.Call) and dotted(it.func) in ('tuple', 'list', 'set', 'frozenset', 'sorted') \
+                    and len(it.args) == 1 and isinstance(it.args[0], ast.Name):
+                copied = it.args[0].id
+            over_copy = copied is not None
             if not over_copy and not isinstance(it, ast.Name):
                 continue
             for st_ in L.body:
@@ -340,7 +346,7 @@ def run(chk, repo, tier):
                         grow, sv = n.args[0], n.func.value.id
                     if grow is None:
                         continue
-                    if over_copy and sv != it.func.value.id:
+                    if over_copy and sv != copied:
                         continue
                     apis = {c.func.attr if isinstance(c.func, ast.Attribute) else getattr(c.func, 'id', '')
                             for c in ast.walk(grow) if isinstance(c, ast.Call)}
@@ -541,6 +547,10 @@ def closed_protection_sets(chk, rule, repo):
                 tgt = n.value
             elif isinstance(n, ast.AugAssign) and isinstance(n.target, ast.Name) and n.target.id == name:
                 tgt = n.value
+            elif isinstance(n, ast.Call) and isinstance(n.func, ast.Attribute) and isinstance(n.func.value, ast.Name) \
+                    and n.func.value.id == name and n.func.attr in ('update', 'add', 'extend', 'append', 'intersection_update',
+                                                                      'difference_update') and len(n.args) == 1:
+                tgt = n.args[0]          # name.update(x) is name |= x
             if tgt is not None:
                 out |= {a.attr for a in ast.walk(tgt) if isinstance(a, ast.Attribute)}
                 out |= {a.id for a in ast.walk(tgt) if isinstance(a, ast.Name)}
